@@ -68,7 +68,33 @@ func pipeCase(spec pipeSpec) corr.Case {
 	uid := uint64(0)
 	collide := false
 	registered := map[uint64]bool{}
+	// a store that has already handed out about 2^32 (or 2^64) request ids: the
+	// counter's overflow must not reach the term half of the id
+	seqs := []uint64{1<<32 - 3, 1<<32 - 1, 1 << 32, 1<<32 + 6, 1<<33 - 2, 5<<32 + 1, 1<<64 - 2}
+	presetAt := -1
+	if rng.Intn(2) == 0 {
+		presetAt = rng.Intn(spec.Steps/2 + 1)
+		terms = append(terms, 4, 5, 6)
+	}
 	for i := 0; i < spec.Steps; i++ {
+		if i == presetAt {
+			n := seqs[rng.Intn(len(seqs))]
+			vp.SetSeq(n)
+			steps = append(steps, fmt.Sprintf("USeq %d", n))
+			// directed: this store leads term t; another store (fresh process) leads term t+k,
+			// where k is what the counter's overflow would add to the term half of the id
+			if k, j := (n+1)>>32, (n+1)&0xffffffff; k >= 1 && k < 1<<20 && j >= 1 && j <= 16 {
+				t := uint64(rng.Intn(7))
+				id := vp.NextID(t)
+				ids = append(ids, id)
+				steps = append(steps, fmt.Sprintf("UNext %d %d", t, id))
+				other := store.VerifNewPipeline(func(*pb.RaftCmdRequest) (*pb.RaftCmdResponse, error) { return nil, nil })
+				for q := uint64(0); q < j; q++ {
+					oid := other.NextID(t + k)
+					steps = append(steps, fmt.Sprintf("UOther %d %d", t+k, oid))
+				}
+			}
+		}
 		switch r := rng.Intn(100); {
 		case r < 20:
 			t := terms[rng.Intn(len(terms))]
